@@ -534,7 +534,7 @@ fn layout_class(case: &Case, text: &str, stderr: &str) -> Option<String> {
                 "layout-assertion/cpp-repeated-empty-base".into()
             } else if base_with_vb {
                 "layout-assertion/cpp-base-with-virtual-bases".into()
-            } else if has_vb(n) {
+            } else if has_vb(n) && !non_pod_base {
                 "layout-assertion/cpp-virtual-base".into()
             } else if non_pod_base {
                 "layout-assertion/cpp-non-pod-base-tail-padding".into()
